@@ -33,10 +33,16 @@ def ini_sessions():
 
 def run_one(arg):
     year, inputs, ch, pat = arg
-    c = chr(ch)
-    text = ['a%sb' % c, 'a %sb' % c, '%sab' % c][pat]
-    d = {'kind': 'cli_session', 'year': year, 'forms': ['1040'], 'inputs': inputs, 'remove': ['1040.occupation', '1040.city'],
-         'answers': {'1040.occupation': text, '1040.city': 'Town'}, 'interrupt': {'k': None}}
+    if pat == 3:
+        # an input that many lines wait for at once (the shipped prompt lists them): answered at the prompt
+        c, text = 'widely-needed-input', inputs['1040.filing_status']
+        d = {'kind': 'cli_session', 'year': year, 'forms': ['1040'], 'inputs': inputs, 'remove': ['1040.filing_status'],
+             'answers': {'1040.filing_status': text}, 'interrupt': {'k': None}}
+    else:
+        c = chr(ch)
+        text = ['a%sb' % c, 'a %sb' % c, '%sab' % c][pat]
+        d = {'kind': 'cli_session', 'year': year, 'forms': ['1040'], 'inputs': inputs, 'remove': ['1040.occupation', '1040.city'],
+             'answers': {'1040.occupation': text, '1040.city': 'Town'}, 'interrupt': {'k': None}}
     try:
         out = common.run_real(['cli_session'], d)
     except Exception as e:
@@ -55,7 +61,7 @@ def extra(c, tier):
     if r != 'sat':
         c.inconclusive.append('INI part: no solved base return')
         return
-    results = common.pmap(run_one, [(year, inputs, ch, pat) for ch, pat in sess])
+    results = common.pmap(run_one, [(year, inputs, ch, pat) for ch, pat in sess] + [(year, inputs, 0, 3)])
     bad = {}
     for rr in results:
         nm = 'ini-session answer=%r' % rr['text']
